@@ -1,7 +1,7 @@
 (* PropC01.v — property C01: line-based retrace returns exactly the recorded call stack.
    Statements only; proofs in MapperProofs.v (mapper = spec), CacheProofs.v (cache = spec),
    IsolationProofs.v / ParserFacts.v (lifting to files). *)
-From PG Require Import Base Mapping Spec Mapper CacheWriter CacheReader CacheStructDefs MappingProofs IsolationProofs MapperProofs ParserFacts CacheBytesProofs Domain WriterInv CacheProofs CacheLayout BridgeBlocks.
+From PG Require Import Base Mapping Spec Mapper CacheWriter CacheReader CacheStructDefs MappingProofs IsolationProofs MapperProofs ParserFacts CacheBytesProofs Domain WriterInv CacheProofs CacheLayout BridgeBlocks SpecFacts.
 
 (* mapper = specification, for every record list with non-empty original class names and
    positive end lines (both hold for what the parser yields from in-domain files) *)
@@ -52,6 +52,23 @@ Proof.
   rewrite (recs_isolation A (X ++ nl2 ++ B) nl1 H1), (recs_isolation X B nl2 H2), HX.
   rewrite (recs_isolation A B nl1 H1). reflexivity.
 Qed.
+
+(* what the specification says, clause by clause (the "ProGuard rule" of the property statement):
+   one frame per applicable entry with that obfuscated name, in file order *)
+Theorem C01_spec_shape : forall rs c m line file b, block_of rs c = Some b ->
+  Sline rs c m line file =
+  map (fun e => (entry_class b e, e_orig e, entry_file b e file, entry_line e line))
+      (filter (fun e => str_eqb (e_obf e) m && entry_applies e line) (entries None (b_body b))).
+Proof. exact Sline_shape. Qed.
+(* an entry applies iff it has no usable end line or start <= line <= end (inverted ranges never apply) *)
+Theorem C01_spec_applies : forall e line,
+  entry_applies e line = true <-> (e_end e = 0 \/ (e_start e <= line /\ line <= e_end e)).
+Proof. exact applies_iff. Qed.
+(* range-to-range offset, saturating at 2^64-1 *)
+Theorem C01_spec_range_offset : forall cf ty orig obf args ocls rest s e os oe line, oe <> os ->
+  entry_line (mk cf ty orig obf args ocls (Some {| lm_start := s; lm_end := e; lm_os := Some os; lm_oe := Some oe |}) rest) line
+  = N.min MAX64 (os + (line - s)).
+Proof. exact rule_range_offset. Qed.
 
 (* the order of distinctly named class blocks is irrelevant *)
 Theorem C01_block_order_irrelevant : forall bs1 bs2,
